@@ -48,7 +48,7 @@ def gen_c03(rng, tier):
 
 def gen_c04(rng, tier):
     return (gen2.gen_pointwise(rng, B(tier, 600, 12000), gen.BINOPS_REL, followups=True) +
-            gen2.gen_tolerance_block(rng, B(tier, 60, 1000), ["rel"]))
+            gen2.gen_tolerance_block(rng, B(tier, 60, 1000), ["rel"]) + gen2.gen_decimal_block(rng, B(tier, 60, 1000)))
 
 
 def gen_c05(rng, tier):
@@ -108,7 +108,8 @@ def gen_c15(rng, tier):
 
 def gen_c16(rng, tier):
     # (the chain block: composed histories result -> copy / shift / fill -> in-place layer; all objects stay first-class)
-    return gen2.gen_c16(rng, B(tier, 350, 6000)) + gen2.gen_c13_chain(rng, B(tier, 80, 1500))
+    return (gen2.gen_c16(rng, B(tier, 350, 6000)) + gen2.gen_c13_chain(rng, B(tier, 80, 1500)) +
+            gen2.gen_decimal_block(rng, B(tier, 40, 600)))
 
 
 def gen_c17(rng, tier):
